@@ -142,6 +142,14 @@ pub fn run(args: &[String]) -> String {
                         return fail1("C09 ctrl handling must change nothing here", l, &args[2], m, HandleControl::MapLettersToUnicode, with, &fmt_decoded(without));
                     }
                 }
+                if !m.lalt && ctrl(m) {
+                    // mapping disabled: holding Ctrl changes nothing (left Alt aside, with which Ctrl forms the AltGr chord)
+                    let off = map(l, k, m, HandleControl::Ignore);
+                    let noctrl = map(l, k, &Modifiers { lctrl: false, rctrl: false, ..m.clone() }, HandleControl::Ignore);
+                    if off != noctrl {
+                        return fail1("C09 with mapping disabled Ctrl must change nothing", l, &args[2], m, HandleControl::Ignore, off, &fmt_decoded(noctrl));
+                    }
+                }
             }
             "HOLDS".into()
         }
